@@ -182,6 +182,9 @@ fn all_corruptions(base: &Base, rep: &mut Report) {
         rep.count("nested_base_frames");
     }
     rep.seen("base_lengths", base.data.len() as u64);
+    if base.data.len() >= 254 {
+        rep.count("longest_base_frames");
+    }
 }
 
 /// Shape-valid strings whose declared length (resp. checksum) is wrong must be rejected with the matching kind.
@@ -346,7 +349,8 @@ fn base_frames(ctx: &Ctx) -> Vec<Base> {
     for &len in lens {
         for _ in 0..per_len {
             // long frames are expensive (523 x 256 substitutions): fewer of them in the quick tier
-            if ctx.quick() && len >= 127 && v.iter().filter(|b: &&Base| b.data.len() >= 127).count() >= 10 {
+            // — but some of EVERY long length, the longest possible frame included
+            if ctx.quick() && len >= 127 && v.iter().filter(|b: &&Base| b.data.len() == len).count() >= 4 {
                 continue;
             }
             let data = match rng.below(4) {
@@ -417,6 +421,7 @@ pub fn run(ctx: &Ctx) -> Outcome {
     floors.push(floor("corruptions also decoded through Frame::read with split deliveries", report.get("corruptions_also_read_from_a_stream") > 10_000, report.get("corruptions_also_read_from_a_stream")));
     floors.push(floor("nested base frames (a suffix is itself a valid frame)", report.get("nested_base_frames") >= 20, report.get("nested_base_frames")));
     floors.push(floor("base frames of >= 12 distinct lengths incl. 255", report.set_len("base_lengths") >= 12, report.set_len("base_lengths")));
+    floors.push(floor("base frames of the two longest lengths (254, 255 data bytes)", report.get("longest_base_frames") >= 6, report.get("longest_base_frames")));
 
     let n_bases = report.get("base_frames");
     Outcome {
